@@ -5,11 +5,18 @@
 // linalg.cc is compiled into this executable with assertions (Eigen index checks throw)
 // and ASan/UBSan, so that a wrong block size is reported instead of reading foreign memory.
 // The Tikhonov/splitting clauses are bound at executable level (csg_imc_solve), not here.
+// For the csg_fmatch clauses (spec/lsq/Fmatch.tla) the driver is the GENERATOR of the synthetic force field:
+//   spl <min> <max> <step> <n> y1..yn <m> r1..rm
+//        grid by CubicSpline::GenerateGrid(min,max,step) (must give n points), natural cubic spline through
+//        the knot values by the real CubicSpline::Interpolate, prints  g <n grid points>  and  v <m values Calculate(r)>
+//   fconv   prints the force conversion of the lammps dump reader (tools::conv::kcal2kj / tools::conv::ang2nm)
 #include <iostream>
 #include <sstream>
 #include <stdexcept>
 #include <string>
 
+#include <votca/tools/constants.h>
+#include <votca/tools/cubicspline.h>
 #include <votca/tools/eigen.h>
 #include <votca/tools/linalg.h>
 
@@ -48,6 +55,26 @@ int main() {
         std::cout << "x";
         for (Index i = 0; i < x.size(); ++i) std::cout << " " << x(i);
         std::cout << std::endl;
+      } else if (cmd == "spl") {
+        double mn, mx, h;
+        long n, m;
+        in >> mn >> mx >> h >> n;
+        tools::CubicSpline sp;
+        Index ng = sp.GenerateGrid(mn, mx, h);
+        if (ng != n) throw std::runtime_error("driver: GenerateGrid gives another number of points");
+        Eigen::VectorXd x(n);
+        for (long i = 0; i < n; ++i) x(i) = sp.getGridPoint(int(i));
+        Eigen::VectorXd y = read_matrix(in, n, 1).col(0);
+        sp.Interpolate(x, y);
+        in >> m;
+        Eigen::VectorXd r = read_matrix(in, m, 1).col(0);
+        std::cout << "g";
+        for (long i = 0; i < n; ++i) std::cout << " " << x(i);
+        std::cout << std::endl << "v";
+        for (long i = 0; i < m; ++i) std::cout << " " << sp.Calculate(r(i));
+        std::cout << std::endl;
+      } else if (cmd == "fconv") {
+        std::cout << "fconv " << tools::conv::kcal2kj / tools::conv::ang2nm << std::endl;
       } else {
         std::cout << "exc unknown command" << std::endl;
       }
